@@ -24,6 +24,7 @@
    [2 * sum(log(diag(cholesky(M))))] = [log det M]  ->  [logdet M := lnT (det M)]. *)
 From Coq Require Import ZArith QArith Qabs List Bool Arith.
 From PAV Require Import Base.NumOps Base.Res Base.Check.
+From PAV Require Export Model.C08Lib.
 Import ListNotations.
 Local Open Scope nat_scope.
 
@@ -31,36 +32,6 @@ Definition with_ln (O : NumOps) (f : T O -> T O) : NumOps :=
   {| T := T O; add := add O; sub := sub O; mul := mul O; div := div O; opp := opp O; ofZ := ofZ O;
      leb := leb O; ltb := ltb O; eqb := eqb O; floorZ := floorZ O; sqrtT := sqrtT O;
      cos2pi := cos2pi O; sin2pi := sin2pi O; lnT := f |}.
-
-(* ------------------------------------------------------------------ list helpers (numpy glue) *)
-Section Lists.
-  Context {A B C : Type}.
-  (* a (op) b, element-wise *)
-  Fixpoint map2 (f : A -> B -> C) (l1 : list A) (l2 : list B) : list C :=
-    match l1, l2 with
-    | a :: t1, b :: t2 => f a b :: map2 f t1 t2
-    | _, _ => []
-    end.
-  (* np.<op>(a, b, out=np.zeros_like(a), where=np.asarray(mask) == 0) *)
-  Fixpoint map2w (dflt : C) (f : A -> B -> C) (mask : list bool) (l1 : list A) (l2 : list B) : list C :=
-    match mask, l1, l2 with
-    | m :: tm, a :: t1, b :: t2 => (if m then dflt else f a b) :: map2w dflt f tm t1 t2
-    | _, _, _ => []
-    end.
-  (* a[np.asarray(mask) == 0] *)
-  Fixpoint select (mask : list bool) (l : list A) : list A :=
-    match mask, l with
-    | m :: tm, a :: t => if m then select tm t else a :: select tm t
-    | _, _ => []
-    end.
-  (* np.delete(a, idxs, axis) along the leading axis: drop the positions listed in idxs *)
-  Fixpoint delete_from (k : nat) (idxs : list nat) (l : list A) : list A :=
-    match l with
-    | [] => []
-    | a :: t => if existsb (Nat.eqb k) idxs then delete_from (S k) idxs t else a :: delete_from (S k) idxs t
-    end.
-  Definition np_delete (idxs : list nat) (l : list A) : list A := delete_from 0 idxs l.
-End Lists.
 
 Definition count_true (l : list bool) : nat := length (filter (fun b => b) l).
 
